@@ -1,4 +1,6 @@
 mod dynamic;
 mod fixed;
+#[cfg(feature = "verif-hooks")]
+pub(crate) mod verif_probe;
 
 pub(crate) use dynamic::DynamicBitfield as Bitfield;
